@@ -82,10 +82,10 @@ def export_format(subtree, **params):
     """
     if subtree.data['edge'] == None:
         subtree.data['edge'] = '--'
+    if subtree.data['morph'] == None:
+        subtree.data['morph'] = "--"
     label = trees.get_label(subtree, **params)
     if not 'export_four' in params:
-        if subtree.data['morph'] == None:
-            subtree.data['morph'] = "--"
         return u"%s%s%s\t%s%s%s\t%d\n" \
             % (subtree.data['word'],
                export_tabs(len(subtree.data['word'])),
@@ -95,6 +95,8 @@ def export_format(subtree, **params):
                subtree.data['edge'],
                subtree.parent.data['num'])
     else:
+        if subtree.data['lemma'] == None:
+            subtree.data['lemma'] = "--"
         return u"%s%s%s%s%s\t%s%s%s\t%d\n" \
             % (subtree.data['word'],
                export_tabs(len(subtree.data['word'])),
@@ -280,6 +282,9 @@ def tigerxml(tree, stream, **params):
     stream.write(u"  <terminals>\n")
     for terminal in trees.terminals(tree):
         stream.write(u"    <t id=\"%d\" " % terminal.data['num'])
+        for field in ['lemma', 'morph']:
+            if terminal.data[field] is None:
+                terminal.data[field] = "--"
         for field in ['word', 'lemma', 'label', 'morph']:
             terminal.data[field] = quoteattr(terminal.data[field])
         stream.write(u"%s=%s " % ('word', terminal.data['word']))
